@@ -160,3 +160,54 @@ def parse(operators, tokens):
     r = p.expr(INF)
     assert p.i == len(tokens), 'unconsumed tokens'
     return r
+
+
+# --------------------------------------------------------------------------
+# model of the operator-insertion API (characterisation of its documented
+# intent: "insert an operator before or after some other existing operator")
+
+def groups_of(operators):
+    """non-empty groups, tightest first, as lists of (symbol, type, alias)"""
+    out, cur = [], []
+    for rec in operators:
+        if not rec:
+            if cur:
+                out.append(cur)
+            cur = []
+        else:
+            cur.append((rec[0], rec[1], rec[2] if len(rec) > 2 else None))
+    if cur:
+        out.append(cur)
+    return out
+
+
+def insert(groups, existing, existing_binary, sym, typ, create_group,
+           alias=None):
+    """new list of groups after insert_operator(...): into the group of the
+    existing operator, or into a new group right after it; with no existing
+    operator at the head of the table.  ValueError if not found."""
+    groups = [list(g) for g in groups]
+    rec = (sym, typ, alias)
+    if existing is None:
+        if create_group:
+            groups.insert(0, [rec])
+        else:
+            groups[0].insert(0, rec)
+        return groups
+    binary = (LEFT, RIGHT)
+    unary = (PREFIX, SUFFIX)
+    for gi, g in enumerate(groups):
+        for r in g:
+            if r[0] == existing and r[1] in (
+                    binary if existing_binary else unary):
+                if create_group:
+                    groups.insert(gi + 1, [rec])
+                else:
+                    g.append(rec)
+                return groups
+    raise ValueError('operator not found')
+
+
+def same_groups(a, b):
+    return [sorted(map(repr, g)) for g in a] == \
+        [sorted(map(repr, g)) for g in b]
